@@ -904,3 +904,11 @@ Proof.
   intros g client_ok tool_known tool_creates attr_ok ownership_ok first more rest s H.
   destruct (load_ok_shape _ _ _ _ _ _ _ _ H) as [cl [more' [Eq Hk]]]. inversion Eq. subst. exact Hk.
 Qed.
+Example null_value_doc_premise : Forall (tree_ok true) null_value_doc /\ ~ Forall wf_node null_value_doc.
+Proof.
+  split.
+  - constructor; [|constructor]. apply to_mapping. constructor; [|constructor].
+    cbn [fst snd]. split; [apply to_scalar | apply to_absent; reflexivity].
+  - intros H. inversion H as [|d ds Hw Hr]. inversion Hw as [ | | | |kvs Hf| ].
+    inversion Hf as [|kv r Hkv Hrest]. destruct Hkv as [_ Habs]. inversion Habs.
+Qed.
